@@ -172,7 +172,7 @@ func ParseCopySourceRange(size int64, acceptRange string) (int64, int64, error) 
 	}
 
 	if bRange[1] == "" {
-		return startOffset, size - startOffset + 1, nil
+		return startOffset, size - startOffset, nil
 	}
 
 	endOffset, err := strconv.ParseInt(bRange[1], 10, 64)
